@@ -255,3 +255,25 @@ func (nopStore) GetCollectionSize(ctx context.Context, entityMetadata datastore.
 func (nopStore) IterateCollection(ctx context.Context, entityMetadata datastore.EntityMetadata, collectionName string, handler datastore.CollectionIteratorHandler) error {
 	return nil
 }
+
+// feeCfg overrides IsFeeEnabled of the chain configuration (everything else is the repo's own config).
+type feeCfg struct {
+	config.ChainConfig
+	fee bool
+}
+
+func (f feeCfg) IsFeeEnabled() bool { return f.fee }
+
+var baseCfg config.ChainConfig
+
+// SetFeeEnabled switches transaction fees on or off for subsequent UpdateState calls (global: harnesses
+// that use it must run their cases serially).
+func SetFeeEnabled(on bool) {
+	c := Setup()
+	if baseCfg == nil {
+		baseCfg = c.ChainConfig
+	}
+	cfg := feeCfg{ChainConfig: baseCfg, fee: on}
+	c.ChainConfig = cfg
+	config.Configuration().ChainConfig = cfg
+}
